@@ -27,7 +27,7 @@ def thorough_extras(ctx: 'core.Ctx', a: argparse.Namespace) -> None:
     sys.path.insert(0, os.path.join(os.path.dirname(os.path.abspath(__file__)), 'tools'))
     import run_selftest as selftest
     t0 = time.time()
-    cases = [c for c in selftest.load_corpus() if c['prop'] == a.prop]
+    cases = [c for c in selftest.load_corpus() if c['prop'] == a.prop] + selftest.load_patch_cases(a.prop)
     os.environ['KFV_NO_SELFTEST'] = '1'
     import concurrent.futures as cf
     with cf.ThreadPoolExecutor(max_workers=16) as ex:
